@@ -179,4 +179,53 @@ __CPROVER_ensures((j_all != NULL && g_lib_fail == 0) ==> (g_add_calls == g_p1_ca
 __CPROVER_ensures(g_add_calls <= g_p1_calls)
 ;
 #endif
+
+#ifdef VERIF_TU_JWKS
+/* ---- the loaders: parse with JSON_DECODE_ANY, hand exactly that document to jwks_process once,
+ * on the caller's set or on a fresh empty one; no input => NULL and nothing touched (C07) ---- */
+static jwk_set_t *__jwks_load_strn(jwk_set_t *jwk_set, const char *jwk_json_str, const size_t len, int empty_allowed);
+extern unsigned g_pr_calls; extern const jwk_set_t *g_pr_set; extern const json_t *g_pr_json;
+jwk_set_t *contract_rec_jwks_process(jwk_set_t *jwk_set, json_t *j_all, json_error_t *error)
+__CPROVER_requires(jwk_set != NULL && __CPROVER_rw_ok(jwk_set, sizeof(*jwk_set)) && jwk_set->error_msg[JWT_ERR_LEN - 1] == 0)
+__CPROVER_requires(error != NULL && __CPROVER_r_ok(error, sizeof(*error)))
+__CPROVER_requires(j_all == NULL || __CPROVER_r_ok(j_all, sizeof(json_t)))
+__CPROVER_assigns(jwk_set->error, SPEC_ERRMSG_FRAME(jwk_set), g_pr_calls, g_pr_set, g_pr_json)
+__CPROVER_ensures(__CPROVER_return_value == jwk_set && g_pr_calls == __CPROVER_old(g_pr_calls) + 1 && g_pr_set == jwk_set && g_pr_json == j_all)
+;
+#define LOADER_REQ \
+__CPROVER_requires(jwk_set == NULL || (__CPROVER_is_fresh(jwk_set, sizeof(*jwk_set)) && jwk_set->error_msg[JWT_ERR_LEN - 1] == 0)) \
+__CPROVER_requires(g_pr_calls == 0 && g_vj_len_c < 0x1000000)
+#define LOADER_ASSIGNS __CPROVER_assigns(jwk_set != NULL: jwk_set->error, SPEC_ERRMSG_FRAME(jwk_set); g_pr_calls, g_pr_set, g_pr_json, JSON_LOAD_GHOSTS, g_lib_fail)
+/* INPUT: the condition under which there is something to parse */
+#define LOADER_ENS(INPUT) \
+__CPROVER_ensures(g_pr_calls <= 1) \
+__CPROVER_ensures(jwk_set != NULL ==> (__CPROVER_return_value == jwk_set || (__CPROVER_return_value == NULL && g_pr_calls == 0))) \
+__CPROVER_ensures(g_pr_calls == 1 ==> ((INPUT) && __CPROVER_return_value != NULL && g_pr_set == __CPROVER_return_value && \
+	g_pr_json == g_json_loaded && g_json_loads_flags == JSON_DECODE_ANY)) \
+__CPROVER_ensures(((INPUT) && __CPROVER_return_value != NULL) ==> g_pr_calls == 1) \
+/* a set made here starts out empty and without error */ \
+__CPROVER_ensures((jwk_set == NULL && __CPROVER_return_value != NULL) ==> (__CPROVER_is_fresh(__CPROVER_return_value, sizeof(jwk_set_t)) && \
+	__CPROVER_return_value->head.next == &__CPROVER_return_value->head && __CPROVER_return_value->head.prev == &__CPROVER_return_value->head && \
+	(g_pr_calls == 0 ==> (__CPROVER_return_value->error == 0 && __CPROVER_return_value->error_msg[0] == 0))))
+jwk_set_t *contract_C07___jwks_load_strn(jwk_set_t *jwk_set, const char *jwk_json_str, const size_t len, int empty_allowed)
+LOADER_REQ
+__CPROVER_requires(jwk_json_str == NULL || (len < 0x10000000 && __CPROVER_is_fresh(jwk_json_str, len + 1)))
+LOADER_ASSIGNS
+LOADER_ENS(jwk_json_str != NULL)
+__CPROVER_ensures((jwk_json_str == NULL && !empty_allowed) ==> __CPROVER_return_value == NULL)
+;
+jwk_set_t *contract_C07_jwks_load_fromfile(jwk_set_t *jwk_set, const char *file_name)
+LOADER_REQ
+__CPROVER_requires(file_name == NULL || __CPROVER_is_fresh(file_name, 1))
+LOADER_ASSIGNS
+LOADER_ENS(file_name != NULL)
+__CPROVER_ensures(file_name == NULL ==> __CPROVER_return_value == NULL)
+;
+jwk_set_t *contract_C07_jwks_load_fromfp(jwk_set_t *jwk_set, FILE *input)
+LOADER_REQ
+LOADER_ASSIGNS
+LOADER_ENS(input != NULL)
+__CPROVER_ensures(input == NULL ==> __CPROVER_return_value == NULL)
+;
+#endif
 #endif
